@@ -114,6 +114,11 @@ package spynode
 // to the conflict index is specified on those functions themselves, C05 / C06)
 //@ func (*Node).ProcessBlock
 //@   serves C02 C04 C06 C03 C11 C14
+// once a stored record says unsafe or cancelled, nothing written here takes that back (the safe
+// report consults the stored record)
+//@   assert flags_only_rise at store State ifany : [C07 C05 C06] (prev.UnSafe ==> v.UnSafe) && (prev.Cancelled ==> v.Cancelled)
+//@   assert unsafe_only_rises at store UnSafe ifany : [C07 C05] prev ==> v
+//@   assert cancelled_only_rises at store Cancelled ifany : [C07 C06] prev ==> v
 //@   opt nomonitor = 1
 //@   opt partial = 1
 //@   opt abstract = SaveTxState FetchTxState fetchSpentOutputs CleanupBlock RemoveTransaction Conflicting
@@ -161,16 +166,17 @@ package spynode
 // fetchSpentOutputs fills tx.Outputs of the record it is handed and writes nothing else of the
 // program heap that existed before (assumed frame; its result is not specified here).
 //@ func fetchSpentOutputs
-//@   serves C03
+//@   serves C03 C12
 //@   opt frame = freshonly except client.Tx!Outputs
 //@   opt nomonitor = 1
 //@   opt summary = FetchTxState
-//@   opt track = FetchTxState
+//@   opt track = FetchTxState GetOutputs
 //@   safety index nil
 //@   requires tx != nil && tx.Tx != nil
 //@   given forall(k, 0, len(tx.Tx.TxIn), tx.Tx.TxIn[k] != nil)
 //@   loop 0 invariant tx != nil && tx.Tx != nil && 0 <= _i && _i <= len(tx.Tx.TxIn) && len(tx.Outputs) == len(tx.Tx.TxIn) && sinceloop(same(tx.Outputs, tx.Tx, tx.Tx.TxIn) && sameseq(tx.Tx.TxIn))
 //@   loop 0 invariant forall(k, 0, _i, tx.Outputs[k] == nil ==> len(toFetch) > 0)
+//@   loop 0 invariant ncalls(GetOutputs) == 0 && ncalls(FetchTxState) >= 0
 //@   loop 1 invariant tx != nil && 0 <= _i && _i <= len(tx.Outputs) && 0 <= utxoIndex && sinceloop(same(tx.Outputs)) && forall(k, 0, _i, tx.Outputs[k] != nil)
 // an input whose parent transaction is in the store carries exactly the parent's output of that
 // index (the object of the fetched record); only an index beyond the parent's outputs gets the
@@ -178,6 +184,10 @@ package spynode
 //@   assert spends_parent_output at elemstore Outputs loop 0 : [C03] idx == _i && (tx.Tx.TxIn[idx].PreviousOutPoint.Index != 4294967295 && lastres(FetchTxState, 0, *client.Tx) != nil && lastres(FetchTxState, 0, *client.Tx).Tx != nil
 //@        && int(tx.Tx.TxIn[idx].PreviousOutPoint.Index) < len(lastres(FetchTxState, 0, *client.Tx).Tx.TxOut)
 //@        ==> v == lastres(FetchTxState, 0, *client.Tx).Tx.TxOut[int(tx.Tx.TxIn[idx].PreviousOutPoint.Index)])
+// the transaction's own data never makes this fail (an input naming a missing output of a stored
+// parent gets the empty placeholder): before the fetcher is asked, the only error is a storage fault.
+// (The caller stops the node on an error, and transactions come from untrusted peers too.)
+//@   ensures only_storage_faults_abort: [C12 C03] result != nil && ncalls(GetOutputs) == 0 ==> ncalls(FetchTxState) > 0 && lastres(FetchTxState, 1, error) != nil && Cause(lastres(FetchTxState, 1, error)) != storage.ErrNotFound
 //@   ensures filled: [C03] result == nil ==> len(tx.Outputs) == len(tx.Tx.TxIn) && forall(k, 0, len(tx.Outputs), tx.Outputs[k] != nil)
 
 // An unconfirmed transaction reaches the handlers as new only through the unconfirmed set's Add
@@ -189,6 +199,11 @@ package spynode
 
 //@ func (*Node).processUnconfirmedTx
 //@   serves C03 C05 C07 C11 C12
+// once a stored record says unsafe or cancelled, nothing written here takes that back (the safe
+// report consults the stored record)
+//@   assert flags_only_rise at store State ifany : [C07 C05 C06] (prev.UnSafe ==> v.UnSafe) && (prev.Cancelled ==> v.Cancelled)
+//@   assert unsafe_only_rises at store UnSafe ifany : [C07 C05] prev ==> v
+//@   assert cancelled_only_rises at store Cancelled ifany : [C07 C06] prev ==> v
 //@   opt nomonitor = 1
 //@   opt partial = 1
 //@   opt abstract = AddTransaction TxTracker.Remove FetchTxState SaveTxState fetchSpentOutputs
@@ -239,6 +254,11 @@ package spynode
 // record carrying its proof, one with a stored record is delivered as stored.
 //@ func (*Node).provideBlock
 //@   serves C04 C03
+// once a stored record says unsafe or cancelled, nothing written here takes that back (the safe
+// report consults the stored record)
+//@   assert flags_only_rise at store State ifany : [C07 C05 C06] (prev.UnSafe ==> v.UnSafe) && (prev.Cancelled ==> v.Cancelled)
+//@   assert unsafe_only_rises at store UnSafe ifany : [C07 C05] prev ==> v
+//@   assert cancelled_only_rises at store Cancelled ifany : [C07 C06] prev ==> v
 //@   opt nomonitor = 1
 //@   opt partial = 1
 //@   opt abstract = SaveTxState FetchTxState fetchSpentOutputs
@@ -263,12 +283,17 @@ package spynode
 
 //@ func (*Node).checkTxDelays
 //@   serves C07 C11 C05
+// once a stored record says unsafe or cancelled, nothing written here takes that back (the safe
+// report consults the stored record)
+//@   assert flags_only_rise at store State ifany : [C07 C05 C06] (prev.UnSafe ==> v.UnSafe) && (prev.Cancelled ==> v.Cancelled)
+//@   assert unsafe_only_rises at store UnSafe ifany : [C07 C05] prev ==> v
+//@   assert cancelled_only_rises at store Cancelled ifany : [C07 C06] prev ==> v
 //@   opt nomonitor = 1
 //@   opt partial = 1
 //@   opt abstract = FetchTxState SaveTxState restart isStopping
 //@   opt track = SaveTxState GetNewSafe
 //@   requires dbase(node)
-//@   loop * invariant dbase(node)
+//@   loop * invariant dbase(node) && ncalls(GetNewSafe) >= 0 && ncalls(SaveTxState) >= 0
 //@   loop 2 invariant dbase(node) && sinceloop(same(update.State, update.TxID)) && sinceloop(ncalls(SaveTxState) == old(ncalls(SaveTxState))) && sinceloop(lastarg(SaveTxState, 2) == old(lastarg(SaveTxState, 2)))
 //@   assert safe_report_is_warranted at call HandleTxUpdate : [C07] arg2.State.Safe && !arg2.State.UnSafe && !arg2.State.Cancelled && arg2.TxID == txid
 //@        && lastarg(SaveTxState, 2) == txState && arg2.State == txState.State && ncalls(GetNewSafe) >= 1
